@@ -2294,6 +2294,7 @@ class QuicConnection:
         # reset the stream
         stream = self._get_or_create_stream(frame_type, stream_id)
         stream.sender.reset(error_code=QuicErrorCode.NO_ERROR)
+        stream.sender.stopped_by_peer = True
 
         self._events.append(
             events.StopSendingReceived(error_code=error_code, stream_id=stream_id)
